@@ -11,6 +11,9 @@
 (*          slices hold THE SAME track objects, as documented for lists)   *)
 (*   refs   droplet references held by the caller                          *)
 (*   ev     Emulsion references held by the caller                         *)
+(*   files  two HDF5 paths: [kind, sets] as left behind by the last        *)
+(*          to_file call (a call that raises has already truncated the     *)
+(*          file and may have written some members)                        *)
 (*   arr    rows of the array returned by the last get_linked_data()       *)
 (*          (row i shares storage with droplet arr[i])                     *)
 (* Every public call is one action.  Its effect is the LIST MODEL of the   *)
@@ -151,10 +154,11 @@ Queries(s) ==
                  ELSE [t \in Times |-> Nearest(s.tcs[c].times, t)]]]
 
 ---------------------------------------------------------------------------
+NoFile == [kind |-> "none", sets |-> <<>>]
 Init ==
     /\ st = [drops |-> InitVals, refs |-> [i \in Range(Len(InitVals)) |-> i],
              ems |-> <<>>, ev |-> <<>>, tcs |-> <<>>, trks |-> <<>>, tls |-> <<>>, arr |-> <<>>,
-             shared |-> {}, eshared |-> {}]
+             files |-> [p \in 1..2 |-> NoFile], shared |-> {}, eshared |-> {}]
     /\ n = 0
 
 \* every action ends here
@@ -413,6 +417,84 @@ TrkIndex ==
         Commit([op |-> "TrkIndex", k |-> k, i |-> i],
                [st EXCEPT !.refs = Append(@, st.trks[k].objs[i]), !.shared = @ \cup {st.trks[k].objs[i]}], "")
 
+(* ------------------------------- files (HDF5) ------------------------------ *)
+\* can these droplets be written as one dataset?  one class and one layout (an empty member is written as "None")
+Storable(vs) == \A i, j \in Range(Len(vs)) : vs[i].k = vs[j].k
+DataSet(vs, t, ts) == [vals |-> vs, time |-> t, times |-> ts]
+
+\* Emulsion.to_file: open(path, "w") truncates; the single dataset is written unless the members cannot be stored
+EmSave ==
+    /\ Go("EmSave")
+    /\ \E e \in Range(Len(st.ev)), p \in 1..2 :
+        LET vs == Vals(st, E(e).mem) IN
+        IF Storable(vs) THEN Commit([op |-> "EmSave", e |-> e, p |-> p],
+                                    [st EXCEPT !.files[p] = [kind |-> "em", sets |-> <<DataSet(vs, 0, <<>>)>>]], "")
+        ELSE Commit([op |-> "EmSave", e |-> e, p |-> p], [st EXCEPT !.files[p] = [kind |-> "em", sets |-> <<>>]], "TypeError")
+\* Emulsion.from_file: exactly one dataset, else RuntimeError; the result is a new emulsion of new droplets
+EmLoad ==
+    /\ Go("EmLoad") /\ Len(st.ev) < MaxEv /\ RoomE(1)
+    /\ \E p \in 1..2 :
+        /\ st.files[p].kind = "em"
+        /\ IF Len(st.files[p].sets) # 1 THEN Commit([op |-> "EmLoad", p |-> p], st, "RuntimeError")
+           ELSE LET vs == st.files[p].sets[1].vals
+                    base == Len(st.drops)
+                    ids == [i \in Range(Len(vs)) |-> base + i]
+                    a == AllocEm([st EXCEPT !.drops = @ \o vs], ids, IF Len(vs) = 0 THEN "none" ELSE vs[1].k)
+                IN /\ RoomD(Len(vs))
+                   /\ Commit([op |-> "EmLoad", p |-> p], [a.s EXCEPT !.ev = Append(@, a.id)], "")
+
+\* EmulsionTimeCourse.to_file: one dataset per frame, in order; a frame that cannot be stored raises and leaves the
+\* frames before it in the (truncated) file
+RECURSIVE StorablePrefix(_, _)
+StorablePrefix(s, emids) == IF Len(emids) = 0 \/ ~Storable(Vals(s, s.ems[Head(emids)].mem)) THEN 0
+                            ELSE 1 + StorablePrefix(s, Tail(emids))
+TcSave ==
+    /\ Go("TcSave")
+    /\ \E c \in Range(Len(st.tcs)), p \in 1..2 :
+        LET tc == st.tcs[c]
+            k == StorablePrefix(st, tc.ems)
+            sets == [i \in Range(k) |-> DataSet(Vals(st, st.ems[tc.ems[i]].mem), tc.times[i], <<>>)]
+        IN Commit([op |-> "TcSave", c |-> c, p |-> p], [st EXCEPT !.files[p] = [kind |-> "tc", sets |-> sets]],
+                  IF k = Len(tc.ems) THEN "" ELSE "TypeError")
+\* EmulsionTimeCourse.from_file: every dataset becomes a frame (fresh emulsions of fresh droplets), in key order
+RECURSIVE LoadFrames(_, _, _)
+LoadFrames(s, sets, acc) ==
+    IF Len(sets) = 0 THEN [s |-> s, ids |-> acc]
+    ELSE LET vs == Head(sets).vals
+             base == Len(s.drops)
+             a == AllocEm([s EXCEPT !.drops = @ \o vs], [i \in Range(Len(vs)) |-> base + i], IF Len(vs) = 0 THEN "none" ELSE vs[1].k)
+         IN LoadFrames(a.s, Tail(sets), Append(acc, a.id))
+TcLoad ==
+    /\ Go("TcLoad") /\ Len(st.tcs) < MaxTcs
+    /\ \E p \in 1..2 :
+        /\ st.files[p].kind = "tc"
+        /\ LET sets == st.files[p].sets
+               nd == LET RECURSIVE T(_) T(q) == IF Len(q) = 0 THEN 0 ELSE Len(Head(q).vals) + T(Tail(q)) IN T(sets)
+               l == LoadFrames(st, sets, <<>>)
+           IN /\ RoomE(Len(sets)) /\ RoomD(nd)
+              /\ Commit([op |-> "TcLoad", p |-> p],
+                        [l.s EXCEPT !.tcs = Append(@, [times |-> [i \in Range(Len(sets)) |-> sets[i].time], ems |-> l.ids])], "")
+
+\* DropletTrack.to_file / from_file: one dataset with a time column; mixed classes or layouts cannot be stored
+TrkSave ==
+    /\ Go("TrkSave")
+    /\ \E k \in Range(Len(st.trks)), p \in 1..2 :
+        LET vs == Vals(st, st.trks[k].objs) IN
+        IF Storable(vs) THEN Commit([op |-> "TrkSave", k |-> k, p |-> p],
+                                    [st EXCEPT !.files[p] = [kind |-> "trk", sets |-> <<DataSet(vs, 0, st.trks[k].times)>>]], "")
+        ELSE Commit([op |-> "TrkSave", k |-> k, p |-> p], [st EXCEPT !.files[p] = [kind |-> "trk", sets |-> <<>>]], "TypeError")
+TrkLoad ==
+    /\ Go("TrkLoad") /\ Len(st.trks) < MaxTrks
+    /\ \E p \in 1..2 :
+        /\ st.files[p].kind = "trk"
+        /\ IF Len(st.files[p].sets) # 1 THEN Commit([op |-> "TrkLoad", p |-> p], st, "RuntimeError")
+           ELSE LET d == st.files[p].sets[1]
+                    base == Len(st.drops)
+                IN /\ RoomD(Len(d.vals))
+                   /\ Commit([op |-> "TrkLoad", p |-> p],
+                             [st EXCEPT !.drops = @ \o d.vals,
+                                        !.trks = Append(@, [times |-> d.times, objs |-> [i \in Range(Len(d.vals)) |-> base + i]])], "")
+
 (* ---------------------------- DropletTrackList ---------------------------- *)
 MaxTls == 3
 TlNew ==
@@ -433,6 +515,7 @@ TlRemoveShort ==
                [st EXCEPT !.tls[l] = SelectSeq(@, LAMBDA k : Duration(st.trks[k].times) > md)], "")
 
 Next ==
+    \/ EmSave \/ EmLoad \/ TcSave \/ TcLoad \/ TrkSave \/ TrkLoad
     \/ TlNew \/ TlSlice \/ TlRemoveShort
     \/ EmNew \/ EmAppend \/ EmExtend \/ EmCopy \/ EmSlice \/ EmIndex \/ EmAdd \/ EmRemoveSmall
     \/ EmRemoveOv \/ EmLink \/ ArrWrite \/ Mutate \/ EmMerge
@@ -465,6 +548,8 @@ Owned ==
 ArrShared == SeqSet(st.arr) \subseteq st.shared
 
 \* objects are never freed or renumbered; existing collections are only edited through their own id
+\* a file written by a call that did not raise holds exactly one dataset per member
+FilesWellFormed == \A p \in 1..2 : st.files[p].kind \in {"em", "trk"} => Len(st.files[p].sets) <= 1
 \* a track list only ever refers to existing tracks
 TlValid == \A l \in Range(Len(st.tls)) : \A i \in Range(Len(st.tls[l])) : st.tls[l][i] \in Range(Len(st.trks))
 HeapGrows == [][/\ Len(st'.drops) >= Len(st.drops) /\ Len(st'.ems) >= Len(st.ems)
